@@ -333,7 +333,7 @@ func runHarness(prog *ssa.Program, buildPkg func(*ssa.Package), fn *ssa.Function
 	if o.budgetS > 0 {
 		e.deadline = t0.Add(time.Duration(o.budgetS) * time.Second)
 	}
-	in := &Interp{prog: prog, e: e, fset: prog.Fset, replace: map[string]*ssa.Function{}, buildPkg: buildPkg}
+	in := &Interp{prog: prog, e: e, fset: prog.Fset, replace: map[string]*ssa.Function{}, replaceCompat: map[string]bool{}, buildPkg: buildPkg}
 	in.execInit = func(p *ssa.Package) bool {
 		path := p.Pkg.Path()
 		ok := strings.HasPrefix(path, "github.com/mholt/caddy-l4") || strings.HasPrefix(path, "verifharness") || execInitPkgs[path]
